@@ -490,12 +490,20 @@ def stage_glr(work, tier, seed):
     cases = []
     inputs = {}
     gtext = {}
-    for gid, g, tags in corpus(tier, seed):
+    variants = []
+    for n, (gid, g, tags) in enumerate(corpus(tier, seed)):
+        variants.append((gid, g, tags, gid))
+        # the same grammar with a user Layout rule (white space / line comments / nested comments)
+        if "curated" in tags or n % 5 == 0:
+            kind = ("line", "block", "ws")[n % 3]
+            variants.append(("%s+lay:%s" % (gid, kind), G.with_layout(g, kind), tags, gid))
+    for gid, g, tags, base in variants:
         text = G.render(g)
         cid = "%s|%s" % (gid, "rn")
-        nod = tab["nodis"].get("%s|pager" % gid)
+        nod = tab["nodis"].get("%s|pager" % base)
         if nod is None:
             continue
+        lay = "+lay:" in gid
         rng = random.Random("%s-glr-%d" % (cid, seed))
         ins = []
         iid = 0
@@ -503,11 +511,29 @@ def stage_glr(work, tier, seed):
             if len(toks) > 9:
                 continue
             iid += 1
-            text_in, lex = G.render_input(g, toks, rng, lead=rng.choice(["", "", " ", "\n"]),
-                                          trail=rng.choice(["", "", " ", "\n"]))
-            ins.append({"iid": iid, "text": text_in, "lex": lex, "partial": False,
-                        "meta": {"kind": kind, "lat": False}})
+            if lay:
+                # the plain rendering first, then the same tokens with layout in between (twin)
+                t0, lex0 = G.render_input(g, toks, rng, seps=[" "], lead="", trail="")
+                ins.append({"iid": iid, "text": t0, "lex": lex0, "partial": False,
+                            "meta": {"kind": kind, "lat": False}})
+                seps = G.layout_seps(g, rng, len(toks) + 2)
+                text_in, lex = G.render_input(g, toks, rng, seps=seps[2:] or [" "], lead=seps[0], trail=seps[1])
+                ins.append({"iid": iid, "text": text_in, "lex": lex, "partial": False,
+                            "meta": {"kind": kind, "lat": False, "twin": "layout", "base": 1}})
+            else:
+                text_in, lex = G.render_input(g, toks, rng, lead=rng.choice(["", "", " ", "\n"]),
+                                              trail=rng.choice(["", "", " ", "\n"]))
+                ins.append({"iid": iid, "text": text_in, "lex": lex, "partial": False,
+                            "meta": {"kind": kind, "lat": False}})
             inputs["%s#%d" % (cid, iid)] = [text_in, lex]
+            # partial parse of the same text (what the full parse found must still be found)
+            if iid % 2 == 1:
+                ins.append({"iid": iid, "text": text_in, "lex": lex, "partial": True,
+                            "meta": {"kind": kind, "lat": False, "twin": "partial", "base": 1}})
+            # the same text through a user-style lexer that ignores the expected tokens
+            elif not lay and iid % 4 == 0:
+                ins.append({"iid": iid, "text": text_in, "lex": lex, "partial": False, "lexer": "any",
+                            "meta": {"kind": kind, "lat": False, "anylex": True}})
         gtext[cid] = text
         cases.append({"id": cid, "grammar": text, "cfg": {"algo": "lr", "tt": "pager"},
                       "glr": {"algo": "glr"}, "max_trees": 150,
@@ -537,9 +563,13 @@ def stage_glr(work, tier, seed):
     rs = run.run_tlc_shards(work, "TraceGLR", "TraceGLR.cfg", envs)
     verdicts = [v for r in rs for v in r["verdicts"]]
     return {"verdicts": verdicts, "gtext": gtext, "inputs": inputs,
-            "divergences": ["GLRRuntime predicts %s, observed ok=%s n=%s: %s #%s" % (
-                v["mon"]["opmodel"], v["mon"]["ok"], v["mon"]["n"], v["id"], v["iid"])
-                for v in verdicts if v["mon"]["opdiv"]][:20],
+            "divergences": (["GLRRuntime predicts %s, observed ok=%s n=%s: %s #%s partial=%s" % (
+                v["mon"]["opmodel"], v["mon"]["ok"], v["mon"]["n"], v["id"], v["iid"], v["partial"])
+                for v in verdicts if v["mon"]["opdiv"]]
+                + ["GLR partial parse: %s: %s #%s" % (json.dumps(v["mon"]["gp"]), v["id"], v["iid"])
+                   for v in verdicts if v["mon"]["gp"]])[:20],
+            "npartial": sum(1 for v in verdicts if v["partial"]),
+            "nlayout_twins": sum(1 for v in verdicts if "+lay:" in v["id"]),
             "nmodel_runs": sum(1 for v in verdicts if v["mon"]["opmodel"]["k"] != "skip"),
             "states": sum(r["distinct"] for r in rs), "transitions": sum(r["states"] for r in rs),
             "ntraces": len(verdicts), "nok": sum(1 for v in verdicts if v["mon"]["ok"]),
@@ -1977,7 +2007,7 @@ def coverage(prop, res, stage_names):
                                                    "ntables", "maxlen", "wall", "nambiguous", "ninscope", "nlrglr",
                                                    "ncells_exercised", "ngrammars_with_conflicts",
                                                    "mc_lex_configurations", "mc_lex_ok", "nmulti_survivors",
-                                                   "outcomes", "mc_pipeline_ok", "mc_regen_ok", "nregenerations", "nkeys", "nsugar_uses", "nrejected", "programs", "nqueries", "nruns", "npaired", "ngenerated", "nshapes", "ncombos", "nmodel_runs", "nautomata_reproduced", "maxstates", "nreplayed", "nbehaviours") if k in r}
+                                                   "outcomes", "mc_pipeline_ok", "mc_regen_ok", "nregenerations", "nkeys", "nsugar_uses", "nrejected", "programs", "nqueries", "nruns", "npaired", "ngenerated", "nshapes", "ncombos", "nmodel_runs", "npartial", "nlayout_twins", "nautomata_reproduced", "maxstates", "nreplayed", "nbehaviours") if k in r}
         cov["per_stage"][st]["divergences"] = len(r.get("divergences", []))
         b = {}
         for k2 in ("maxlen", "maxstates", "ncases", "ntables", "nshapes", "ncombos"):
